@@ -252,6 +252,10 @@ class DictReader:
         """
         self.parsed_doc = parsed_doc
 
+        if not isinstance(self.parsed_doc, dict):
+            msg = "Invalid odML document: expected a dictionary, found '%s'"
+            raise ParserException(msg % type(self.parsed_doc).__name__)
+
         # Parse only odML documents of supported format versions.
         if 'Document' not in self.parsed_doc:
             msg = "Missing root element 'Document'"
@@ -268,6 +272,9 @@ class DictReader:
             raise InvalidVersionException(msg)
 
         self.parsed_doc = self.parsed_doc['Document']
+        if not isinstance(self.parsed_doc, dict):
+            msg = "Invalid odML document: 'Document' has to be a dictionary, found '%s'"
+            raise ParserException(msg % type(self.parsed_doc).__name__)
 
         doc_attrs = {}
         doc_secs = []
@@ -306,7 +313,17 @@ class DictReader:
         """
         odml_sections = []
 
+        if not isinstance(section_list, list):
+            msg = "Sections have to be provided as a list, found '%s'"
+            self.error(msg % type(section_list).__name__)
+            return odml_sections
+
         for section in section_list:
+            if not isinstance(section, dict):
+                msg = "A Section has to be provided as a dictionary, found '%s'"
+                self.error(msg % type(section).__name__)
+                continue
+
             sec_attrs = {}
             children_secs = []
             sec_props = []
@@ -353,7 +370,17 @@ class DictReader:
         """
         odml_props = []
 
+        if not isinstance(props_list, list):
+            msg = "Properties have to be provided as a list, found '%s'"
+            self.error(msg % type(props_list).__name__)
+            return odml_props
+
         for _property in props_list:
+            if not isinstance(_property, dict):
+                msg = "A Property has to be provided as a dictionary, found '%s'"
+                self.error(msg % type(_property).__name__)
+                continue
+
             prop_attrs = {}
 
             for i in _property:
